@@ -160,16 +160,29 @@ class Model:
                 recv = self.prog.resolve_expr(mod, c.func.value)
                 if not (isinstance(recv, ClassInfo) and recv.qualname == self.schema_base.qualname):
                     continue
-                if len(c.args) != 2:
+                args = list(c.args)
+                if len(args) == 1 and isinstance(args[0], ast.Starred) and isinstance(args[0].value, ast.Name):
+                    # Schema.__override__(*_WIRING) with a module-level  _WIRING = ("__or__", union)
+                    for st2 in mod.toplevel:
+                        tgt = st2.targets[0] if isinstance(st2, ast.Assign) and len(st2.targets) == 1 else (
+                            st2.target if isinstance(st2, ast.AnnAssign) else None)
+                        val = getattr(st2, "value", None)
+                        if isinstance(tgt, ast.Name) and tgt.id == args[0].value.id and isinstance(val, (ast.Tuple, ast.List)):
+                            args = list(val.elts)
+                if len(args) != 2:
                     continue
-                a0 = c.args[0]
+                a0 = args[0]
                 dunder = None
                 if isinstance(a0, ast.Constant) and isinstance(a0.value, str):
                     dunder = a0.value
-                elif (isinstance(a0, ast.Attribute) and a0.attr == "__name__"
-                      and isinstance(a0.value, ast.Attribute)):
-                    dunder = a0.value.attr
-                fn = self.prog.resolve_expr(mod, c.args[1])
+                elif isinstance(a0, ast.Attribute) and a0.attr == "__name__":
+                    inner = a0.value
+                    if isinstance(inner, ast.Attribute):
+                        dunder = inner.attr                     # Schema.__eq__.__name__
+                    elif isinstance(inner, ast.Call) and isinstance(inner.func, ast.Name) and inner.func.id == "getattr" \
+                            and len(inner.args) >= 2 and isinstance(inner.args[1], ast.Constant) and isinstance(inner.args[1].value, str):
+                        dunder = inner.args[1].value            # getattr(Schema, "__invert__").__name__
+                fn = self.prog.resolve_expr(mod, args[1])
                 if dunder:
                     self.overrides[dunder] = (fn, mod, st)
 
